@@ -35,6 +35,7 @@ import (
 var rec *evid.Rec
 
 var sumTurns, sumSteps int64 // evidence extras
+var stepsBySub = map[string]int64{}
 
 const (
 	slack     = 32      // the constant c of the verdict (identical footprints are the rule on the unchanged tree)
@@ -325,7 +326,9 @@ func check(c progCase) (string, info) {
 		stopOut, stopTick := 0, 0
 		if c.Mode == "out" {
 			stopOut = big
-			size = 4 * big // filtered streams over the scripted sources need more of them
+			if c.Input != "flat" {
+				size = 4 * big // filtered streams over the scripted sources need more of them
+			}
 		} else {
 			stopTick = big + 4
 		}
@@ -448,6 +451,7 @@ func judge(sub string, c progCase, classes ...string) string {
 	}
 	sumTurns += int64(inf.Turns)
 	sumSteps += int64(inf.Polls)
+	stepsBySub[sub] += int64(inf.Polls)
 	pre := sub + "/"
 	rec.Class(pre + "mode/" + c.Mode)
 	rec.Class(pre + "n/" + strconv.Itoa(c.N))
@@ -462,6 +466,7 @@ func judge(sub string, c progCase, classes ...string) string {
 		} else {
 			rec.Class(pre + "footprints/within-slack")
 			switch {
+			case c.Mode == "control":
 			case maxDelta <= 0:
 				rec.Class("increase/none (a component is smaller at 8n)")
 			case maxDelta <= 4:
@@ -469,7 +474,11 @@ func judge(sub string, c progCase, classes ...string) string {
 			case maxDelta <= 16:
 				rec.Class("increase/5-16")
 			default:
-				rec.Class("increase/17-32")
+				p := c.Prog
+				if len(p) > 240 {
+					p = p[:240] + "..."
+				}
+				rec.Class("increase/17-32: " + c.Mode + " " + p) // rare: name the program
 			}
 		}
 	} else {
@@ -754,6 +763,9 @@ func TestC20(t *testing.T) {
 		rec.Extra("sum_turns_counted_by_the_harness", sumTurns)
 		rec.Extra("sum_vm_steps", sumSteps)
 		rec.Extra("slack", slack)
+		for _, sub := range []string{"forms", "control", "tailrec", "compose"} {
+			rec.Extra("sum_vm_steps_"+sub, stepsBySub[sub])
+		}
 	}()
 	rec.Replays(replayCase)
 	if rec.ReplayPath() != "" {
@@ -797,7 +809,7 @@ func TestC20(t *testing.T) {
 
 	// (R1) generated tail-recursive definitions
 	r1 := func() {
-		rec.Rapid(t, "tailrec", rec.Scale(2400, 12000), func(t *rapid.T) {
+		rec.Rapid(t, "tailrec", rec.Scale(2000, 12000), func(t *rapid.T) {
 			c, classes := genTailRec(t)
 			if msg := judge("tailrec", c, classes...); msg != "" {
 				t.Fatalf("%s", rec.Fail("tailrec", c, "%s", msg))
@@ -806,7 +818,7 @@ func TestC20(t *testing.T) {
 	}
 	// (R2) generated compositions of the built-in iteration forms
 	r2 := func() {
-		rec.Rapid(t, "compose", rec.Scale(2400, 12000), func(t *rapid.T) {
+		rec.Rapid(t, "compose", rec.Scale(2000, 12000), func(t *rapid.T) {
 			c, classes := genCompose(t)
 			if msg := judge("compose", c, classes...); msg != "" {
 				t.Fatalf("%s", rec.Fail("compose", c, "%s", msg))
